@@ -315,7 +315,8 @@ func (q *qgen) clauseText(level int) string {
 	fresh := []string{"?v", "?w", "?x", "?y", "?z", "?k", "?l", "?m", "?n", "?o"}
 	fi := r.intn(3)
 	alias := func() string { fi++; return fresh[fi%len(fresh)] }
-	_ = alias
+	// the TYPE / ID alias of the subject, sometimes reused for the object: both must then agree
+	sType, sID := "", ""
 	// subject
 	if r.chance(1, 3) {
 		b.WriteString(qNodes[r.intn(len(qNodes))].String())
@@ -327,10 +328,12 @@ func (q *qgen) clauseText(level int) string {
 			b.WriteString(" as " + alias())
 		}
 		if r.chance(1, 8) {
-			b.WriteString(" type " + alias())
+			sType = alias()
+			b.WriteString(" type " + sType)
 		}
 		if r.chance(1, 8) {
-			b.WriteString(" id " + alias())
+			sID = alias()
+			b.WriteString(" id " + sID)
 		}
 	}
 	b.WriteString(" ")
@@ -379,11 +382,19 @@ func (q *qgen) clauseText(level int) string {
 			if r.chance(1, 8) {
 				b.WriteString(" as " + alias())
 			}
-			if r.chance(1, 8) {
-				b.WriteString(" type " + alias())
+			if r.chance(1, 8) || (sType != "" && r.chance(1, 2)) {
+				a := alias()
+				if sType != "" && r.chance(1, 2) {
+					a = sType
+				}
+				b.WriteString(" type " + a)
 			}
-			if r.chance(1, 8) {
-				b.WriteString(" id " + alias())
+			if r.chance(1, 8) || (sID != "" && r.chance(1, 2)) {
+				a := alias()
+				if sID != "" && r.chance(1, 2) {
+					a = sID
+				}
+				b.WriteString(" id " + a)
 			}
 			if r.chance(1, 8) {
 				b.WriteString(" at " + alias())
